@@ -7,6 +7,7 @@
 //! monitors, and writes a stage report; bin/check turns stage reports into verdicts and evidence.
 
 #![allow(dead_code)]
+mod adv;
 mod gen;
 mod guard;
 mod oracle;
